@@ -437,12 +437,18 @@ impl Node {
 
     /// Production shutdown order (command/agent.rs).
     pub async fn shutdown_graceful(mut self) -> R<()> {
+        self.stop_tasks().await;
+        self.agent.subs_manager().drop_handles().await;
+        Ok(())
+    }
+
+    /// First half of the production shutdown: tripwire, then wait for the agent's tasks.
+    /// (Subscriptions keep draining until `drop_handles`.)
+    pub async fn stop_tasks(&mut self) {
         self.trip().await;
         for h in self.handles.drain(..) {
             let _ = tokio::time::timeout(Duration::from_secs(20), h).await;
         }
-        self.agent.subs_manager().drop_handles().await;
-        Ok(())
     }
 }
 
